@@ -18,6 +18,14 @@ CHECKS = {
    text="Exploration. Payloads are split by the harness's own fragmenter (RTPS 8.3.8.3), fragments are permuted, duplicated, grouped 1-3 per submessage and interleaved across samples and writers; the bytes handed over must equal the bytes fragmented, once, and only after the injected fragment set is complete.",
    note="One constant fragment size per writer; writer-side fragmentation is covered by the writer leg (C02/C04 engine).", ref="3/C05"),
 }
+CHECKS.update({
+ "C08": dict(engine="E-API", technique="runtime monitoring: DDS 1.4 2.2.2.5.1 reference model run in lock-step with the real DataReader; every read/take result compared",
+   text="Exploration. Random scripts of value/dispose arrivals (1-4 instances, 1-2 writers, dispose by key and by key hash) interleaved with all read/take forms; each result is compared with a reference model for membership (condition, instance, max_samples, KeepLast depth), per-writer order, sample state, instance state, generation counts and the view state of the most recent sample of each instance.",
+   note="Arrivals are lossless and in order (loss is C01's subject); ranks are not judged; view state judged only where all readings of the spec text coincide; NOT_ALIVE_NO_WRITERS is not driven.", ref="3/C08"),
+ "C09": dict(engine="E-API", technique="runtime monitoring: thread-CPU-time hang watchdog around every reader call in subprocess shards, plus exactly-once delivery oracle around injected unintelligible changes",
+   text="Exploration. Undecodable CDR, unknown representation ids and disposes with never-seen key hashes are injected at head/middle/tail positions; every take form must return within a CPU-time budget, report or skip the bad change once, and deliver every intelligible change exactly once.",
+   note="A call is judged hung when it burns > 2 s of thread CPU time; a shard whose call hangs is abandoned and restarted after the culprit.", ref="3/C09"),
+})
 NOT_YET = {}
 
 def main():
@@ -49,6 +57,7 @@ def main():
         },
         "engines": [
             {"name": "E-WIRE/ReaderBench", "path": "/verif/incrate/rbench.rs + /verif/harness/vcheck/src/rdr.rs", "serves_properties": ["C01", "C03", "C05"], "kind_free_text": "deterministic single-thread protocol bench: hand-built Reader+MessageReceiver wired to real DataReader flavours; datagrams injected as bytes, replies captured at the UDPSender tap"},
+            {"name": "E-API", "path": "/verif/harness/vcheck/src/api.rs", "serves_properties": ["C08", "C09"], "kind_free_text": "reference model of DDS sample/view/instance semantics in lock-step with a real DataReader fed through ReaderBench; subprocess shards with CPU-time watchdog for C09"},
         ],
         "checks": checks,
         "not_applicable": na,
